@@ -62,23 +62,23 @@ class FutureImpl {
 
   const T& Get() const {
     MutexLocker l(&m_mutex);
-    if (m_is_set) {
-      return m_value;
+    // pthread_cond_wait may wake up spuriously, so re-test the predicate.
+    while (!m_is_set) {
+      m_condition.Wait(&m_mutex);
     }
-    m_condition.Wait(&m_mutex);
     return m_value;
   }
 
   void Set(const T &t) {
-    {
-      MutexLocker l(&m_mutex);
-      if (m_is_set) {
-        OLA_FATAL << "Double call to FutureImpl::Set()";
-        return;
-      }
-      m_is_set = true;
-      m_value = t;
+    // Broadcast while holding the mutex: once it is released a thread in Get()
+    // may return and drop the last reference, which deletes this object.
+    MutexLocker l(&m_mutex);
+    if (m_is_set) {
+      OLA_FATAL << "Double call to FutureImpl::Set()";
+      return;
     }
+    m_is_set = true;
+    m_value = t;
     m_condition.Broadcast();
   }
 
@@ -128,21 +128,21 @@ class FutureImpl<void> {
 
   void Get() const {
     MutexLocker l(&m_mutex);
-    if (m_is_set) {
-      return;
+    // pthread_cond_wait may wake up spuriously, so re-test the predicate.
+    while (!m_is_set) {
+      m_condition.Wait(&m_mutex);
     }
-    m_condition.Wait(&m_mutex);
   }
 
   void Set() {
-    {
-      MutexLocker l(&m_mutex);
-      if (m_is_set) {
-        OLA_FATAL << "Double call to FutureImpl::Set()";
-        return;
-      }
-      m_is_set = true;
+    // Broadcast while holding the mutex: once it is released a thread in Get()
+    // may return and drop the last reference, which deletes this object.
+    MutexLocker l(&m_mutex);
+    if (m_is_set) {
+      OLA_FATAL << "Double call to FutureImpl::Set()";
+      return;
     }
+    m_is_set = true;
     m_condition.Broadcast();
   }
 
